@@ -27,9 +27,10 @@ def ofTok (j : Json) : Except String Tok :=
   | .str "." => pure .dot
   | .str "tn" => pure .truncNum
   | .str "ts" => pure .truncStr
+  | .str "bad" => pure .bad
   | _ =>
     match j.getObjVal? "n" with
-    | .ok v => do pure (.num (← v.getNat?))
+    | .ok v => do pure (.num (← v.getInt?))
     | .error _ => do pure (.txt (← getNat j "t"))
 
 def ofCls (s : String) : Except String Cls :=
@@ -78,7 +79,7 @@ def ofFront (s : String) : Except String Front :=
   | _ => throw s!"bad front {s}"
 
 partial def jSVal : SVal → Json
-  | .num n => jNat n
+  | .num n => Json.num (JsonNumber.fromInt n)
   | .txt t => Json.mkObj [("t", jNat t)]
   | .dot => Json.str "."
   | .list xs => Json.arr (xs.map jSVal).toArray
@@ -87,6 +88,11 @@ partial def jSVal : SVal → Json
 def jOptNat : Option Nat → Json
   | none => Json.null
   | some n => jNat n
+
+def jSurf : Option Surf → Json
+  | none => Json.null
+  | some (.id n) => jNat n
+  | some (.input t) => Json.mkObj [("input", cps t)]
 
 def jAssoc (xs : List (Nat × SVal)) : Json :=
   jList (fun (kv : Nat × SVal) => Json.arr #[jNat kv.1, jSVal kv.2]) xs
@@ -101,19 +107,28 @@ def jResults : Results → Json
       ("internal", match t.tokInternal with | some v => jSVal v | none => Json.null),
       ("extra", jAssoc t.extra)])]
 
-def jResp : Except Err Resp → Json
+def jResp (task : Option String) : Except Err Resp → Json
   | .error e => jErr (errTag e)
-  | .ok r => Json.mkObj [
+  | .ok r => Json.mkObj ((match task with | some t => [("task", Json.str t)] | none => []) ++ [
       ("input", cps r.input), ("skipped", Json.bool r.skipped), ("run", jNat r.run),
       ("notes", jList jNat r.notes), ("warnings", jList jNat r.warnings), ("errors", jList jNat r.errors),
-      ("surface", jOptNat r.surface), ("results", jResults r.results),
-      ("wrote", optCps r.wrote), ("served", Json.bool r.served), ("eof", Json.bool r.eof)]
+      ("surface", jSurf r.surface), ("results", jResults r.results),
+      ("wrote", optCps r.wrote), ("served", Json.bool r.served), ("eof", Json.bool r.eof)])
 
 def jRun (r : Run) : Json :=
   Json.mkObj [("id", jNat r.id), ("ended", Json.bool r.ended), ("note", jOptNat r.note)]
 
+def getVersion (j : Json) : List Nat :=
+  match j.getObjVal? "version" with
+  | .ok v => match v.getArr? with
+    | .ok a => a.toList.filterMap (fun x => x.getNat?.toOption)
+    | .error _ => [0, 9, 30]
+  | .error _ => [0, 9, 30]
+
 def ofCfg (j : Json) : Except String Cfg := do
-  pure { front := ← ofFront (← getStr j "front"), tsdb := getBoolD j "tsdb" true,
+  -- the protocol in effect is computed by the model from the requested option and the reported version
+  pure { front := ← ofFront (← getStr j "front"),
+         tsdb := protocolInEffect (getBoolD j "tsdbinfo" true) (getVersion j),
          showTree := getBoolD j "showTree" false, showMrs := getBoolD j "showMrs" false,
          runnote := getBoolD j "runnote" true, exitOk := getNatD j "exitOk" 0 }
 
@@ -127,7 +142,13 @@ def handle (j : Json) : Except String Json := do
       | .ok v => do (← v.getArr?).toList.mapM (·.getBool?)
       | .error _ => pure []
     let o := run c items orc
-    pure (Json.mkObj [("steps", jList jResp o.resps), ("close", jNat o.close), ("runs", jList jRun o.runs)])
+    -- `process_item`: the response of `interact` plus the front end's `task`
+    let task := if getBoolD j "processItem" false then some (taskOf c.front) else none
+    let user ← match j.getObjVal? "cmdargs" with
+      | .ok v => do (← v.getArr?).toList.mapM (·.getStr?)
+      | .error _ => pure []
+    let argv := cmdline c.front (getBoolD j "tsdbinfo" true) (getVersion j) user
+    pure (Json.mkObj [("argv", jList Json.str argv), ("steps", jList (jResp task) o.resps), ("close", jNat o.close), ("runs", jList jRun o.runs)])
   | "validate" => do
     let f ← ofFront (← getStr j "front")
     match validate f (← getCps j "s") with
